@@ -114,7 +114,7 @@ def valid_bundle(rng, nblocks=None, crc_kind=None):
         else:
             nb = nblocks
         frag = rng.random() < 0.15
-        b = genb.rnd_bundle(rng, nblocks=nb, crc_kind=crc_kind, fragment=frag)
+        b = genb.reorder(rng, genb.rnd_bundle(rng, nblocks=nb, crc_kind=crc_kind, fragment=frag))
         f = 0x1 if frag else 0
         for bit in SAFE_FLAGS:
             if rng.random() < 0.3 and not (frag and bit == 0x4):
